@@ -76,7 +76,8 @@ def to_bool(c, then_paths_true, then_paths_false):
     return paths
 
 
-def expected(kind):
+def expected(kind, unroll=None):
+    UN = unroll or LOOP_UNROLL
     if kind == "Value":
         return [P([], [], "Ok(self.Value.0)")]
     if kind == "Reference":
@@ -131,7 +132,7 @@ def expected(kind):
 
         def elem(i):
             return "elem%d(%s)" % (i, src)
-        for k in range(LOOP_UNROLL + 1):
+        for k in range(UN + 1):
             # k successful iterations, then the end of the collection
             conds, events = [], []
             for i in range(k):
@@ -141,7 +142,7 @@ def expected(kind):
                 events += [("insert", elem(i) + ".0", okv(e))] if kind == "Map" else [("push", okv(e))]
             conds_end = conds + [("next(%s, #%d)" % (src, k), "fails")]
             paths.append(P(conds_end, events + [("end", src, k)], "Ok(COLLECTION)"))
-            if k < LOOP_UNROLL:
+            if k < UN:
                 e = elem(k) + (".1" if kind == "Map" else "")
                 paths.append(P(conds + [("next(%s, #%d)" % (src, k), "ok"), (ev(e), "is Err")],
                                events + [("next", src, k), ("eval", e)], errv(e)))
